@@ -14,6 +14,7 @@ from . import contracts as C
 
 INT64_MIN = -(2 ** 63)
 INT64_MAX = 2 ** 63 - 1
+MAX_DIM = 2 ** 48
 
 
 class VerifError(Exception):
@@ -228,6 +229,8 @@ class FunctionVerifier:
         self.real_assigned = set()
         self.stmt_keys = {}
         self.used_anchors = set()
+        self.computing = False
+        self.skolems = []
 
     # ------------------------------------------------------------------ utilities
     def fresh(self, name, sort):
@@ -286,7 +289,7 @@ class FunctionVerifier:
         shape = []
         for d in range(ndim):
             s = self.fresh_int("%s_shape%d" % (name, d))
-            st.assume(s >= 0)
+            st.assume(z3.And(s >= 0, s <= MAX_DIM))  # assumption A7: array axes have at most 2^48 entries
             shape.append(s)
         return self.new_loc(st, dtype, shape, name=name)
 
@@ -1385,7 +1388,11 @@ class FunctionVerifier:
         if kind == "bool":
             return SBool(self.fresh(name, B))
         if kind == "arr":
-            return self.fresh_array(st, name, ty[1], ty[2])
+            dt = {"int": "i8", "float": "f8", "bool": "b1"}.get(ty[1], ty[1])
+            a = self.fresh_array(st, name, dt, ty[2])
+            if self.is_lemma:
+                return self.arr_value(st, a)
+            return a
         if kind == "opt":
             if self.variant.get(name) == "None":
                 return NONE
